@@ -33,6 +33,9 @@ BinFails(e) ==
   ELSE IF n = "Pow" /\ e.mgr = "safe" /\ b.t # a.t THEN ""
   ELSE IF Undefined(n, a, b) THEN F(e.outcome = "error", "an undefined operation (division by zero, negative shift) did not yield an error")
   ELSE IF Unknowable(n, a, b) THEN ""
+  \* the second operand is a floating-point NaN / infinity / 2^63 and beyond and has to become an integer, a time span or a date-time:
+  \* the host defines no such conversion - an error is as good as a value
+  ELSE IF e.outcome = "error" /\ "bfits" \in DOMAIN e /\ ~e.bfits /\ b.t \in {"Float", "Double"} /\ ConvTarget(n, a.t) \in {"Integer", "Long", "TimeSpan", "DateTime"} THEN ""
   ELSE IF ShiftTooFar(n, a, b) THEN ""
   ELSE F(e.outcome = "value", "a defined operation yielded an error")
     \o (IF e.outcome # "value" THEN ""
